@@ -160,6 +160,14 @@ pub fn run(ctx: &mut Ctx) {
             }
         }
     }
+    // bounds that carry build metadata (different on the two sides, on one side only, equal):
+    // the short-chain table, all ordered pairs
+    ctx.stratum("BM-build-metadata-on-bounds", true);
+    for (a, b) in &build_metadata_pairs() {
+        if ctx.take() {
+            judge_pair(ctx, a, b);
+        }
+    }
     // long alternative lists (17..300, some 3000) against small partners, both orders, run
     // on a 256 KiB stack: counts around 16/32/64/256 and stack depth following the list length
     ctx.stratum("L-long-alternative-lists", false);
